@@ -114,6 +114,12 @@ def run_glue(shape):
         T = "transposed-matrix"
 
     def fake_eigs(A, k=6, tol=0, maxiter=None, which="LM", sigma=None, **kw):
+        from symx.core import Unsupported
+        extra = {k_: v for k_, v in kw.items() if v is not None and k_ not in ("v0", "ncv", "return_eigenvectors")}
+        if extra:
+            # the contract of this stand-in covers the plain call only; an operator handed to ARPACK (OPinv, M, Minv, OPpart) changes what
+            # ARPACK returns in ways the stand-in does not describe -> not decidable here (harness error, never a pass)
+            raise Unsupported(f"eigs contract stub: keyword(s) {sorted(extra)} are not covered by the contract")
         if A != "transposed-matrix":
             raise AssertionError("the decomposition must be asked for the TRANSPOSE (left eigenvectors)")
         return sarr(list(vals_in)), sarr([list(r) for r in vecs_in])
